@@ -850,6 +850,7 @@ type cItem struct {
 	notAfter time.Time
 	leaf     ct.LeafEntry
 	chain    [][]byte // what CertChain / PreCertChain must hand out
+	defect   string   // the leaf parses with this complaint of the parser, which is not fatal ("" = none); nonfatal_test.go
 }
 
 var (
@@ -921,6 +922,7 @@ func buildCopyPool() {
 			chain: [][]byte{root.DER}})
 	}
 	cpool = append(cpool, cItem{class: "bad", leaf: ct.LeafEntry{LeafInput: []byte{0xff, 0x00, 0x01}, ExtraData: cpool[0].leaf.ExtraData}})
+	buildCopyPoolNF(rootA, rootB) // leaves with a tolerable defect: drawn by genCopyNF only
 }
 
 type cSpec struct {
@@ -1247,6 +1249,15 @@ func emitCopy(w *lib.Writer, sp *cSpec, res *cResult) {
 	coq := fmt.Sprintf("CCopy %s %s %s %s %s %s", lib.Z(sp.start), lib.Z(total), lib.List(ents), zlist(gotC), zlist(gotP), good)
 	in := map[string]interface{}{"kind": "copy:" + sp.tag, "first_cert_chain_asked_after": sp.lateCert.String(), "first_precert_chain_asked_after": sp.latePre.String(), "start": sp.start, "batch": sp.batch, "parallel_fetch": sp.workers, "buffer": sp.buf,
 		"tree_sizes": sp.sizes, "not_after_start_year": sp.naStart, "not_after_limit_year": sp.naLimit, "pool_entry_by_index": sp.items}
+	nf := map[string]string{}
+	for i, it := range sp.items {
+		if d := cpool[it].defect; d != "" {
+			nf[fmt.Sprint(i)] = cpool[it].class + ": " + d
+		}
+	}
+	if len(nf) > 0 {
+		in["entries_with_non_fatal_parse_errors"] = nf
+	}
 	tags := []string{"mode:copy", "copy:" + sp.tag, fmt.Sprintf("workers:%d", sp.workers)}
 	w.Add(lib.Case{Coq: coq, Input: in, Impl: map[string]interface{}{"settled": res.final, "cert_chains_pool_entries": gotC, "precert_chains_pool_entries": gotP},
 		PropOK: ok, Note: note, Tags: tags})
@@ -1267,7 +1278,7 @@ func genCopy(r *mrand.Rand, late bool) *cSpec {
 		sp.tag = "growth"
 	}
 	for i := int64(0); i < sz; i++ {
-		sp.items = append(sp.items, r.Intn(len(cpool)))
+		sp.items = append(sp.items, r.Intn(baseCPool))
 		if r.Intn(5) == 0 {
 			sp.short[i] = int64(1 + r.Intn(sp.batch%7+1))
 		}
